@@ -85,7 +85,7 @@ struct ghost {
     uint32_t poll_fds;    /* descriptors handed to the last poll                */
     uint32_t poll_ready;  /* ... of which reported with revents != 0            */
     unsigned long poll_nfds;
-    int poll_fdv[12]; short poll_evv[12]; short poll_rev[12]; /* per slot: fd, events asked, revents */
+    int poll_fdv[16]; short poll_evv[16]; short poll_rev[16]; /* per slot: fd, events asked, revents */
   } pl;
   /* ---- start-up input cursor (C02) ------------------------------------------ */
   int in_fd; size_t stream_pos;
